@@ -1,6 +1,7 @@
 import Zstd.Driver.Util
 import Zstd.Model.Huffman
 import Zstd.Spec.Xxh64
+import Zstd.Driver.Fse
 /- line protocol, engine `huf` (stateless): the Huffman coder model (C13) -/
 namespace Zstd.Driver.Huf
 open Zstd Zstd.Driver Zstd.Model.Huf Zstd.Model.Huf.Bits
@@ -36,7 +37,7 @@ def fseParam (s : String) : Option (List Nat → Except Fault (List Nat)) :=
 def showHufErr : HufErr → String
   | .sourceIsEmpty => "SourceIsEmpty"
   | .notEnoughBytesForWeights g e => s!"NotEnoughBytesForWeights {g} {e}"
-  | .fseTable => "FSETableError"
+  | .fseTable e => "FSETableError " ++ ((Driver.Fse.showErr e).drop 4).toString
   | .fseTableUsedTooManyBytes u a => s!"FSETableUsedTooManyBytes {u} {a}"
   | .notEnoughBytesToDecompressWeights h n => s!"NotEnoughBytesToDecompressWeights {h} {n}"
   | .extraPadding s => s!"ExtraPadding {s}"
